@@ -134,6 +134,8 @@ def seg_unit(v, seg, res, tier):
         # components and subcomponents of this field
         if fr.kind != 'leaf':
             comp_paths(res, v, seg, idx, fr, new, viol)
+            sibling_prefix_negatives(res, v, seg, idx, fr, new, viol)
+            retyped_field(res, v, seg, idx, fr, new, viol)
     # negative names
     negatives(res, v, seg, new, viol)
     res.dims['segments'] += 1
@@ -222,6 +224,83 @@ def comp_paths(res, v, seg, idx, fr, new, viol):
                     viol('%s|%s|%s|%s|delete' % (v, seg, where, dm), '%s %s (v%s): still present after delete through %r' % (seg, where, v, dpath))
                 else:
                     res.classes['deleted-everywhere'] += 1
+
+
+def sibling_prefix_negatives(res, v, seg, idx, fr, new, viol):
+    """the positional path of a sibling field whose number merely starts with this field's number designates no child"""
+    from hl7apy.exceptions import ChildNotFound, ChildNotValid
+    for n in ('%s_%d0_1' % (seg, idx), '%s_%d1_1' % (seg, idx), '%s_%d0_1_1' % (seg, idx), ('%s_%d0_1' % (seg, idx)).lower()):
+        for op in ('get', 'set', 'delete'):
+            res.evaluations += 1
+            res.enumerated += 1
+            res.states += 1
+            res.transitions += 1
+            s = new()
+            lit = 'x'
+            try:
+                setattr(getattr(s, fr.name), fr.children[0].name, 'x' if fr.children[0].kind != 'leaf' or not tables.is_base(v, fr.children[0].datatype)
+                        else tables.literal(fr.children[0].datatype, v))
+                before = s.to_er7()
+                f = getattr(s, fr.name)
+                if op == 'get':
+                    r = getattr(f, n)
+                    len(r)
+                    got = 'returned %r' % (list(r),)
+                elif op == 'set':
+                    setattr(f, n, 'y')
+                    got = 'accepted'
+                else:
+                    delattr(f, n)
+                    got = 'accepted'
+            except (ChildNotFound, ChildNotValid):
+                got = None
+            except Exception as x:
+                got = 'raised %s' % exc_class(x)
+            res.validated += 1
+            if got is not None:
+                viol('%s|%s|negative-sibling-path|%s' % (v, seg, op), '%s (v%s): %s of %r on field %s, which is the path of another field, %s'
+                     % (seg, v, op, n, fr.name, got))
+            elif s.to_er7() != before:
+                viol('%s|%s|negative-changed|sibling-path-%s' % (v, seg, op), '%s (v%s): refused %s of %r changed the segment' % (seg, v, op, n))
+            else:
+                res.classes['negative-refused'] += 1
+
+
+def retyped_field(res, v, seg, idx, fr, new, viol):
+    """positional paths follow the field's *current* datatype: read a path, change the datatype of the (still empty)
+    field, use the same path again"""
+    structs = libs()[v].DATATYPES_STRUCTS
+    cands = [d for d in ('CE', 'XPN', 'CX', 'HD', 'CQ') if d in structs and d != fr.datatype and tables.datatype_rows(v, d)[0].kind == 'leaf'
+             and tables.is_base(v, tables.datatype_rows(v, d)[0].datatype)]
+    if not cands:
+        return
+    new_dt = cands[0]
+    pos = '%s_1' % fr.name
+    res.evaluations += 1
+    res.enumerated += 1
+    res.states += 1
+    res.transitions += 4
+    res.nontrivial += 1
+    try:
+        s = new()
+        f = s.add_field(fr.name)
+        len(getattr(f, pos.lower()))                 # positional read under the declared datatype
+        f.datatype = new_dt                          # TOLERANT, no children yet
+        lit = tables.literal(tables.datatype_rows(v, new_dt)[0].datatype, v)
+        setattr(f, pos.lower(), lit)                 # the same path again
+        named = getattr(f, '%s_1' % new_dt)
+        posd = getattr(f, pos)
+        ok = len(named) == 1 and len(posd) == 1 and named[0] is posd[0] and named[0].to_er7() == lit
+    except Exception as x:
+        viol('%s|%s|retyped|%s' % (v, seg, exc_class(x)), '%s (v%s): %s read positionally, retyped %s->%s, then %s written: %s: %s'
+             % (seg, v, fr.name, fr.datatype, new_dt, pos, exc_class(x), x))
+        return
+    res.validated += 1
+    if not ok:
+        viol('%s|%s|retyped|mismatch' % (v, seg), '%s (v%s): after retyping %s to %s the path %s and the name %s_1 designate different children'
+             % (seg, v, fr.name, new_dt, pos, new_dt))
+    else:
+        res.classes['retyped-same-child'] += 1
 
 
 def negatives(res, v, seg, new, viol):
